@@ -847,7 +847,10 @@ func (vm *vm) handleThrow(arg interface{}) *Exception {
 		vm.stash = tf.stash
 		vm.privEnv = tf.privEnv
 		if ex != nil {
+			tfIdx := len(vm.tryStack) - 1
 			_ = vm.restoreStacks(tf.iterLen, tf.refLen)
+			// closing the iterators pushes try frames, which may have moved the stack
+			tf = &vm.tryStack[tfIdx]
 		} else {
 			// an interrupt, a stack overflow or a Go panic must not run any more script code:
 			// drop the open iterators instead of calling their return()
